@@ -39,7 +39,7 @@ Spec == Init /\ [][Next]_vars
 TreeOut(s) == [i \in 1..Len(s.nodes) |->
                  <<s.nodes[i].name, s.nodes[i].par, s.nodes[i].role, s.nodes[i].args, s.nodes[i].blk>>]
 Out(s) == <<SetToSeq(s.devs), s.v, s.why, s.warg, s.bad, SetToSeq(s.irr),
-            IF s.v = "acc" THEN TreeOut(s) ELSE <<>>, SetToSeq(s.loaded)>>
+            IF s.v = "acc" THEN TreeOut(s) ELSE <<>>, SetToSeq(s.loaded), s.irrat>>
 
 RefPaths == {p \in paths : p.devs = {}}
 Running == {p \in paths : p.v = "run"}
